@@ -177,6 +177,33 @@ func runC18(c *Ctx) {
 				default:
 					c.ok("R18.1", construct, c.ipos(closeStop), "close(stop) then <-exiting on every path")
 				}
+				// the exit signal is all the closer waits for: user code (a reverse-call handler that does not
+				// follow its context, or the very handler the closer is called from) must not be able to hold it
+				var extra ssa.Instruction
+				p.coneInstrs(closer, func(x ssa.Instruction) {
+					if extra != nil || x == waitExit {
+						return
+					}
+					switch y := x.(type) {
+					case *ssa.UnOp:
+						if y.Op == token.ARROW && !sameChan(y.X, exitCh) {
+							extra = x
+						}
+					case *ssa.Select:
+						if y.Blocking {
+							extra = x
+						}
+					case *ssa.Send:
+						extra = x
+					default:
+						if isGoroutineWait(x) {
+							extra = x
+						}
+					}
+				})
+				if extra != nil {
+					c.bad("R18.1", fmt.Sprintf("%s: the closer waits only for the loop's exit", fname(ctor)), c.ipos(extra), "the closer also waits for something else (handler goroutines, a WaitGroup, another channel): a reverse-call handler that does not follow its context, or that calls the closer itself, keeps it from ever returning")
+				}
 			}
 		}
 		arm, ok := w.Arms["stop"]
@@ -504,21 +531,37 @@ func (c *Ctx) cleanupCannotBlock(rule string) {
 			waits := calleeName(df) == "(*sync.WaitGroup).Wait"
 			for _, g := range c.funcsOf(df.Common().Value) {
 				p.coneInstrs(g, func(x ssa.Instruction) {
-					if ci, ok := x.(*ssa.Call); ok && calleeName(ci) == "(*sync.WaitGroup).Wait" {
+					if isGoroutineWait(x) {
 						waits = true
 					}
 				})
 			}
 			if g := staticCallee(df); g != nil && p.allFns[g] {
 				p.coneInstrs(g, func(x ssa.Instruction) {
-					if ci, ok := x.(*ssa.Call); ok && calleeName(ci) == "(*sync.WaitGroup).Wait" {
+					if isGoroutineWait(x) {
 						waits = true
 					}
 				})
 			}
 			if waits {
-				c.bad(rule, fmt.Sprintf("%s: deferred cleanup waits for goroutines", fname(r.FnLoop)), c.ipos(df), "a deferred call of the connection loop waits on a WaitGroup: it runs before the loop's context is cancelled (the cancel was deferred first, so it runs last), and handlers that only that cancel would stop — notification handlers are not in the handling table — are waited for for ever: the connection is never released")
+				c.bad(rule, fmt.Sprintf("%s: deferred cleanup waits for goroutines", fname(r.FnLoop)), c.ipos(df), "a deferred call of the connection loop waits for other goroutines (WaitGroup, Cond, or a polling loop that sleeps until a counter drops): it runs before the loop's context is cancelled (the cancel was deferred first, so it runs last), and handlers that only that cancel would stop — notification handlers are not in the handling table — are waited for for ever: the connection is never released")
 			}
 		})
 	}
+}
+
+// isGoroutineWait: the instruction waits for other goroutines to get somewhere: WaitGroup.Wait, Cond.Wait,
+// or a sleep inside a cycle (a polling loop that goes round until a counter or flag changes).
+func isGoroutineWait(x ssa.Instruction) bool {
+	ci, ok := x.(*ssa.Call)
+	if !ok {
+		return false
+	}
+	switch calleeName(ci) {
+	case "(*sync.WaitGroup).Wait", "(*sync.Cond).Wait":
+		return true
+	case "time.Sleep":
+		return inLoop(ci.Block())
+	}
+	return false
 }
